@@ -344,11 +344,12 @@ static void reg_putln(int h, char *s)
 	}
 	/* omit old lines */
 	if (xhist > 0 && old != NULL) {
-		char *end = old;
+		char *end = old;		/* keep xhist - 1 old lines */
 		for (i = 1; end != NULL && i < xhist; i++)
-			end = strchr(end == old ? end : end + 1, '\n');
+			if ((end = strchr(end, '\n')) != NULL)
+				end++;
 		if (end != NULL)
-			end[1] = '\0';
+			*end = '\0';
 	}
 	/* add the new line */
 	sb = sbuf_make();
